@@ -465,7 +465,7 @@ class Engine:
             return True
         if r == 'sat':
             rec['verdict'] = 'sat'
-            rec['model'] = self._input_model(m, z3.Not(zs))
+            rec['model'] = self._input_model(m, z3.Not(zs))[0]
             rec['choices'] = dict(self.choices)
             self.obls.append(rec)
             return False
@@ -530,9 +530,9 @@ class Engine:
                         v = z3_to_py(m2.eval(var, model_completion=True))
                         out[name] = enc_num(v) if v is not None else None
                     out['_nice'] = True
-                    return out
+                    return out, m2
             out['_unrepresentable'] = True
-        return out
+        return out, model
 
     def final_model(self):
         """A model of the path condition (with hints when possible)."""
@@ -603,7 +603,7 @@ class Engine:
             except z3.Z3Exception:
                 model = None
         if model is not None:
-            rec['model'] = self._input_model(model)
+            rec['model'], model = self._input_model(model)
             rec['obs'] = [[l, self._enc_obs(v, model)] for l, v in self.obs]
         else:
             rec['model'] = None
